@@ -250,7 +250,7 @@ func checkC09(r *Run) error {
 			return nonMap(s)
 		}
 		switch s.Name {
-		case "sprims", "sprimsnd", "sbig", "mprims0", "sarr0", "sarr2", "srec", "snest", "mmix":
+		case "sprims", "sprimsnd", "sbig", "mprims0", "sarr0", "sarr2", "srec", "snest", "mmix", "uni":
 			return true
 		}
 		return false
